@@ -360,6 +360,12 @@ func (a *Annotations) structClause(cs *StructAnn, word, rest string, sl specLine
 		for _, f := range strings.Fields(rest[i+1:]) {
 			cs.fields["*"+f] = &fieldAnn{kind: "guarded", lock: lock}
 		}
+	case "pointee_immutable":
+		// pointee_immutable: fields -- what the pointer field points to (a library struct) is never
+		// written once the object is shared
+		for _, f := range strings.Fields(strings.TrimPrefix(rest, ":")) {
+			cs.fields["*"+f] = &fieldAnn{kind: "immutable"}
+		}
 	case "single_writer":
 		// single_writer <func> <lockpath>: fields   -- guarded by the lock, written only by <func>
 		i := strings.Index(rest, ":")
@@ -593,6 +599,8 @@ func (g *Gen) resolveAnnotations() {
 					a.errs = append(a.errs, fmt.Sprintf("%s:%d: struct %s has no field %s", sa.file, sa.line, sa.key, f[1:]))
 				} else if _, isPtr := g.fieldType(st, f[1:]).Underlying().(*types.Pointer); !isPtr {
 					a.errs = append(a.errs, fmt.Sprintf("%s:%d: struct %s: field %s is not a pointer (pointee_guarded_by)", sa.file, sa.line, sa.key, f[1:]))
+				} else if fa.kind != "guarded" {
+					// pointee_immutable: nothing to resolve
 				} else if k, _ := g.resolveLockPath(T, fa.lock); k == "" {
 					a.errs = append(a.errs, fmt.Sprintf("%s:%d: struct %s: cannot resolve lock path %s", sa.file, sa.line, sa.key, fa.lock))
 				}
